@@ -10,6 +10,7 @@ import (
 	"time"
 
 	"github.com/jig/lisp"
+	"github.com/jig/lisp/lib/call"
 	"github.com/jig/lisp/lib/concurrent"
 	"github.com/jig/lisp/lisperror"
 	"github.com/jig/lisp/types"
@@ -326,6 +327,48 @@ func runC04(c *fw.Ctx) {
 			}
 		}
 		idx++
+	}
+	// (f) futures cancelled or abandoned while their body is inside a Go builtin that ignores cancellation and then
+	// returns / fails / panics: whatever the body's goroutine does afterwards must not panic into the host
+	// bound through lib/call like every builtin (the binder's recover is part of the path under test)
+	call.CallOverrideFN(base, "c04-slow!", func(a ...types.MalType) (types.MalType, error) {
+		time.Sleep(2 * time.Millisecond)
+		if len(a) > 0 {
+			if s, ok := a[0].(string); ok && s == "err" {
+				return nil, errors.New("slow failed")
+			}
+			if s, ok := a[0].(string); ok && s == "panic" {
+				panic("slow panicked")
+			}
+		}
+		return 42, nil
+	})
+	futProgs := []string{
+		"(let (f (future (c04-slow!))) (future-cancel f) (try @f (catch e e)))",
+		"(let (f (future (c04-slow! \"err\"))) (future-cancel f) (try @f (catch e e)))",
+		"(let (f (future (c04-slow! \"panic\"))) (future-cancel f) (try @f (catch e e)))",
+		"(let (f (future (do (c04-slow!) (c04-slow!)))) (future-cancel f) (future-cancel f) (future-done? f))",
+		"(let (f (future (c04-slow!))) (list @f (future-cancel f) @f (future-cancelled? f)))",
+		"(let (f (future (throw {:a 1}))) (try @f (catch e (list e (future-cancel f) (try @f (catch e2 e2))))))",
+		"(let (f (future (c04-slow!))) (future-cancel f) (future-done? f))",
+		"(do (future (c04-slow! \"panic\")) (future (c04-slow! \"err\")) nil)",
+	}
+	for fi, src := range futProgs {
+		for rep := 0; rep < c.Pick(4, 40); rep++ {
+			if !c.Mine(idx) {
+				idx++
+				continue
+			}
+			idx++
+			ast, err := lisp.READ(src, nil, base)
+			if err != nil {
+				panic(err)
+			}
+			c04Run(c, base, fmt.Sprintf("futcancel-%d-%d", fi, rep), ast, src, "future-cancel", false)
+			// give the body goroutines time to finish inside this case's START/END window
+			c.Case(fmt.Sprintf("futcancel-%d-%d-settle", fi, rep), src+" ; (bodies finishing)", func() { time.Sleep(12 * time.Millisecond) })
+			c.Count("kind.future-cancel", 1)
+		}
 	}
 	// (e) seeded random compositions of the above (nesting malformed forms inside each other)
 	r := c.Rand("compose")
